@@ -46,12 +46,19 @@ DESIGN_REF = "DESIGN.md section 5, C14; design/C14.md"
 THEOREMS = [
     "XalanModel.Props.C14.pending_attrs_nodup_qname",
     "XalanModel.Props.C14.no_duplicate_expanded_attr_counterexample",
-    "XalanModel.Props.C14.unique_prefix_is_fresh_partial",
+    "XalanModel.Props.C14.unique_prefix_is_fresh",
+    "XalanModel.Props.C14.rns_refines_frames",
     "XalanModel.Props.C14.names_resolve_attr_ns_partial",
     "XalanModel.Props.C14.names_resolve_attr_ns_counterexample",
+    "XalanModel.Props.C14.prefix_lookup_sound_fixed",
+    "XalanModel.Props.C14.names_resolve_attr_ns_fixed",
     "XalanModel.Props.C14.no_undeclared_prefix_partial",
     "XalanModel.Props.C14.no_undeclared_prefix_counterexample",
+    "XalanModel.Props.C14.no_undeclared_prefix_fixed",
     "XalanModel.Props.C14.attr_after_child_leaks_counterexample",
+    "XalanModel.Props.C14.late_attribute_ignored_fixed",
+    "XalanModel.Props.C14.element_empty_namespace_fixed",
+    "XalanModel.Props.C14.excluded_not_emitted",
 ]
 
 XML = G.XML
@@ -451,6 +458,9 @@ def run(ctx):
         "modelled, not verified: AVT evaluation, attribute sets, namespace-alias, result tree fragments, serializer, source tree builder",
     ]
     ctx.build("hooks")
+    # which of the four repaired code sites does the tree have?  (Generated/C14_Variant.lean; the driver uses it)
+    ok, tout = ctx.translate("c14_variant")
+    ctx.extra["variant"] = tout.strip()[-200:]
     ctx.lean("XalanModel.Props.C14", THEOREMS, extra_targets=["xm_c14"])
     model = ctx.exe("xm_c14")
     harness = common.build_harness("c14_transform", ["c14_transform.cpp"], flavor="hooks")
@@ -525,6 +535,7 @@ def replay(ctx, path):
     for b in case["body"]:
         fix_instr(b)
     ctx.build("hooks")
+    ctx.translate("c14_variant")
     common.lake_build(["xm_c14"])
     model = ctx.exe("xm_c14")
     harness = common.build_harness("c14_transform", ["c14_transform.cpp"], flavor="hooks")
